@@ -461,7 +461,13 @@ def r_prov(ctx) -> RuleResult:
         if sw:
             want = V2000_PROP_OF.get(ev.key)
             from .spec import tag_selected_by
-            ok = want is not None and {tag_selected_by(x) for x in sw} == {want}
+            tags_ = {tag_selected_by(x) for x in sw}
+            ok = want is not None and tags_ == {want}
+            if not ok and want is not None and want in tags_:
+                # values of several kinds of line meet in one abstract record (the same helper fills two tables, ...): the
+                # analysis does not keep them apart, so this is no evidence of a wrong assignment (what the block does to a
+                # sample table is R-SUPERSEDE's part)
+                raise AnalysisError(f"R-PROV: V2000: values from {sorted(sw)} lines reach `{short(ev.node, 50)}` (key `{ev.key}`) together; the analysis cannot keep them apart")
             why = f"value from `{sorted(sw)}` lines stored under `{ev.key}`" + ("" if ok else f" (only {want!r} entries may set it)")
         else:
             ok = cols <= allowed_atom.get(ev.key, set())
